@@ -13,6 +13,7 @@ Decision (two comparisons):
 import os, re, sys, time, importlib.util
 from concurrent.futures import ThreadPoolExecutor
 from .. import common as C
+from .. import ctie
 
 HARNESS = os.path.join(C.VERIF, "harness", "xma_h.c")
 GEN = os.path.join(C.LEAN, "HawkModel", "Gen", "XmaConst.lean")
@@ -555,6 +556,7 @@ def run(ctx):
         ctx.problem("corr", "translator extract/xma_const.py failed on this tree: %s" % str(e)[:400], str(e), found_input=False)
         return C.finish(ctx, [], 1, 0, "translator failed", ["translator failure"], extra_cov=dict(obligations=1, discharged=0))
     proof = C.prove(ctx, "HawkModel.Props.C20", leanchecker=(ctx.tier == "thorough"))
+    tie = ctie.tie(ctx, "C20", leanchecker=(ctx.tier == "thorough"))   # szlog2/getxfi/rounding of xma.c: translated C = model
     libdir, exe = build(ctx)
     rng = ctx.rng
     quick = ctx.tier == "quick"
@@ -723,7 +725,7 @@ def run(ctx):
                 if t not in seen:
                     seen.add(t); nontriv += 1
     samples = [" ; ".join(h[:10]) for h in (hists[ncorpus:ncorpus + 1] + hists[len(bh) // 2:len(bh) // 2 + 1] + hists[-2:])]
-    return C.finish(ctx, [proof], evaluations, nontriv,
+    return C.finish(ctx, [proof] + tie, evaluations, nontriv,
                     "histories = corpus + breadth-first exploration by heap state of a 1 KiB zone (sizes {1,16,17,32,496,512,513,528}; every alloc/free/realloc applicable "
                     "in every distinct state, depth 7 quick / 10 thorough, at most 15000 / 150000 executed ops per level) + seeded random histories (balanced, free-heavy, realloc-heavy, fill profiles; zones 0 B..1 MiB, "
                     "internal and external; sizes k*16+-1, 512+-16, 2^j+-16, near 2^64) + `hawk -m N` runs; every op: (1) python property oracle + harness invariant flags + content patterns + ASan "
@@ -732,7 +734,7 @@ def run(ctx):
                     samples,
                     extra_cov=dict(op_distribution=dist, branch_profile=prof, histories=len(hists), bfs_levels=[list(x) for x in bstats], bfs_states=nstates,
                                    impl_status=status, constants=vals, hawk_m_outcomes=smoke),
-                    trusted=["xma.c modelled by hand in HawkModel/Xma.lean (block chain as a list; next/prev block = list neighbours; free_prev/free_next links as list order; "
+                    trusted=[ctie.TRUSTED % "C20", "xma.c modelled by hand in HawkModel/Xma.lean (block chain as a list; next/prev block = list neighbours; free_prev/free_next links as list order; "
                              "statistics counters not modelled but compared with values derived from the model chain)",
                              "constants ALIGN/HDR/MINALLOC/FIXED/NCLS/BITS extracted by extract/xma_const.py from the checked tree",
                              "payload bytes are modelled per block; bytes of free blocks and header bytes are not modelled (guard bands + patterns on the C side)"],
